@@ -15,20 +15,22 @@ from . import common, lib_db
 from .common import parallel_map
 from .lib_dbref import Ref, dangling_tags, duplicate_keys, frame_breaks, fallbacks
 
-RULE = ("cases = histories of 5-40 commands (declare with/without directory, tag, stack, table=none, force, external "
-        "files; redeclaration with another directory; undeclare with/without version, tag-only, version-and-tag, with "
-        "the product set up in the environment; remove; direct assignTag / unassignTag; ~8% dry runs) over 3 "
-        "products x 3 versions x 2 flavors (Linux native, generic fallback, sharing version files) x 2 stacks x 3 "
-        "global tags, some product directories missing; every command is a fresh forked child; a history is "
-        "non-trivial when at least 3 of its commands change the database and at least one is refused or finds "
-        "nothing; distinct = distinct history digests; thorough tier: also every history of length 2 over a "
-        "36-command alphabet")
+RULE = ("cases = histories of 5-40 commands (declare with/without directory, tag, stack, force, external files; table "
+        "file: the directory's, none, a file kept elsewhere (-m: in ups_db_tables/ of either stack, outside the stacks, the "
+        "interned table by its path), a stream (-M, two contents); redeclaration with another directory; undeclare "
+        "with/without version, tag-only, version-and-tag, with the product set up in the environment; remove; direct "
+        "assignTag / unassignTag; ~8% dry runs; ~1.5% an installation directory deleted by hand) over 3 products x 3 "
+        "versions x 2 flavors (Linux native, generic fallback, sharing version files) x 2 stacks named stack and stack2 "
+        "(one a character prefix of the other, DESIGN 4.1) x 3 global tags, some product directories missing; every "
+        "command is a fresh forked child; a history is non-trivial when at least 3 of its commands change the database "
+        "and at least one is refused or finds nothing; distinct = distinct history digests; thorough tier: also every "
+        "history of length 2 over a 36-command alphabet")
 TRUSTED = ["fork-per-command runner, audit-log mtime normaliser and the Database-only reader of harness/lib_db.py",
            "version names are single-component (the model orders listings by string order; C10 owns version order)",
-           "all stacks writable, global tags only (user tags not modelled), tablefile None or \"none\" (interned tables not "
-           "generated)"]
+           "all stacks writable, global tags only (user tags not modelled)"]
 ASSUMPTIONS = ["a tag (tag, product, flavor) is one designation on the whole EUPS_PATH (DESIGN 6 C06, reading)",
-               "table files are compared by identity of their path class (default `ups/<name>.table` or `none`)"]
+               "two table files are the same table when their bytes are (the contents of the universe differ in length, so "
+               "that filecmp's shallow comparison cannot tie); table files declare no options and no dependencies"]
 
 WORKERS = int(os.environ.get("VERIF_WORKERS", "12"))
 EMPTY = {"decls": [], "tags": []}
@@ -212,7 +214,9 @@ def check_case(ctx, case, steps, msteps):
             td = sorted(set(map(common.jdump, want["tags"])) ^ set(map(common.jdump, real["tags"])))
             ctx.fail("history_implies/" + kind_of(cmd), sub, impl_obs, model_obs, finding=cls,
                      note="outcome %s (implied %s); declarations differing %s; tags differing %s" % (rec["out"], want_out, dd[:4], td[:4]))
-            ref.load(real)
+            ref.load(real)                       # go on from the state the implementation is in: records and extra files
+            if "extras" in rec:
+                ref.load_extras(rec["extras"])
         elif rec["out"] == "ok" and not cmd.get("noaction") and cmd["op"] in ("declare", "assignTag") and \
                 (cmd.get("tag") or cmd["op"] == "assignTag"):
             ctx.hist("tag-moved")
